@@ -4,6 +4,8 @@
 //! `feeds <hex> <limit> <chunk> [fail_from]`: the same through incremental feeding in chunks of
 //! `chunk` bytes; after an error the caller KEEPS feeding the remaining chunks (errors counted),
 //! then renders whatever keyframes are there and drops everything.
+//! `retry <hex> <limit> <chunk> [fail_from]`: `feeds`, but a refused `JxlImage::feed_bytes` call is
+//! repeated (same bytes) up to two more times; the answer ends ` held=<n> accepted=<0|1>`.
 use jxl_oxide::{AllocTracker, InitializeResult, JxlImage, JxlThreadPool};
 use verif_harness::*;
 
@@ -50,9 +52,19 @@ fn sweep(bytes: &[u8], limit: usize, fail_from: usize) -> String {
 }
 
 fn feeds(bytes: &[u8], limit: usize, chunk: usize, fail_from: usize) -> String {
+    feeds_retry(bytes, limit, chunk, fail_from, 0).0
+}
+
+/// `retry`: the caller repeats a refused `feed_bytes` call (same bytes) up to `retries` times before
+/// it gives the chunk up. Second component: ` held=<tracked bytes after feeding, nothing rendered
+/// yet> accepted=<1 if the last attempt of every call succeeded>`.
+fn feeds_retry(bytes: &[u8], limit: usize, chunk: usize, fail_from: usize, retries: usize) -> (String, String) {
     let tracker = AllocTracker::with_limit(limit);
     tracker.verif_fail_from(fail_from);
     let t2 = tracker.clone();
+    let t3 = tracker.clone();
+    let held = std::sync::Mutex::new(String::new());
+    let held_ref = &held;
     let outcome = catch(move || {
         let mut uninit = Some(
             JxlImage::builder()
@@ -62,21 +74,32 @@ fn feeds(bytes: &[u8], limit: usize, chunk: usize, fail_from: usize) -> String {
         );
         let mut image: Option<JxlImage> = None;
         let mut errs = 0usize;
+        let mut gave_up = false;
         let mut first = String::new();
         let mut pending: Vec<u8> = Vec::new();
         for c in bytes.chunks(chunk.max(1)) {
             pending.extend_from_slice(c);
             if let Some(img) = image.as_mut() {
-                match img.feed_bytes(&pending) {
-                    Ok(n) => {
-                        pending.drain(..n.min(pending.len()));
-                    }
-                    Err(e) => {
-                        errs += 1;
-                        if first.is_empty() {
-                            first = format!("feed-err-{}", err_class(&*e));
+                let mut attempt = 0;
+                loop {
+                    match img.feed_bytes(&pending) {
+                        Ok(n) => {
+                            pending.drain(..n.min(pending.len()));
+                            break;
                         }
-                        pending.clear();
+                        Err(e) => {
+                            errs += 1;
+                            if first.is_empty() {
+                                first = format!("feed-err-{}", err_class(&*e));
+                            }
+                            if attempt < retries {
+                                attempt += 1;
+                                continue;
+                            }
+                            gave_up = true;
+                            pending.clear();
+                            break;
+                        }
                     }
                 }
             } else if let Some(mut u) = uninit.take() {
@@ -86,6 +109,7 @@ fn feeds(bytes: &[u8], limit: usize, chunk: usize, fail_from: usize) -> String {
                     }
                     Err(e) => {
                         errs += 1;
+                        gave_up = true;
                         if first.is_empty() {
                             first = format!("feed-err-{}", err_class(&*e));
                         }
@@ -107,6 +131,7 @@ fn feeds(bytes: &[u8], limit: usize, chunk: usize, fail_from: usize) -> String {
         let Some(image) = image else {
             return if first.is_empty() { "uninit".into() } else { first };
         };
+        *held_ref.lock().unwrap() = format!(" held={} accepted={}", t3.verif_outstanding(), !gave_up as u8);
         let mut renders = Vec::new();
         for k in 0..image.num_loaded_keyframes() {
             match image.render_frame(k) {
@@ -127,13 +152,17 @@ fn feeds(bytes: &[u8], limit: usize, chunk: usize, fail_from: usize) -> String {
         Err(p) => p.replace(' ', "_"),
     };
     tracker.verif_fail_from(usize::MAX);
-    format!(
-        "{} peak={} left={} outstanding={} allocs={}",
-        outcome,
-        tracker.verif_peak_outstanding(),
-        tracker.verif_bytes_left(),
-        tracker.verif_outstanding(),
-        tracker.verif_alloc_calls()
+    let held = held.lock().unwrap().clone();
+    (
+        format!(
+            "{} peak={} left={} outstanding={} allocs={}",
+            outcome,
+            tracker.verif_peak_outstanding(),
+            tracker.verif_bytes_left(),
+            tracker.verif_outstanding(),
+            tracker.verif_alloc_calls()
+        ),
+        held,
     )
 }
 
@@ -152,6 +181,14 @@ fn main() {
             let Ok(chunk) = chunk.parse::<usize>() else { return "bad-op".into() };
             let ff = rest.first().and_then(|x| x.parse().ok()).unwrap_or(usize::MAX);
             feeds(&bytes, limit, chunk, ff)
+        }
+        ["retry", hexs, limit, chunk, rest @ ..] => {
+            let Some(bytes) = unhex(hexs) else { return "bad-op".into() };
+            let Ok(limit) = limit.parse::<usize>() else { return "bad-op".into() };
+            let Ok(chunk) = chunk.parse::<usize>() else { return "bad-op".into() };
+            let ff = rest.first().and_then(|x| x.parse().ok()).unwrap_or(usize::MAX);
+            let (a, b) = feeds_retry(&bytes, limit, chunk, ff, 2);
+            a + &b
         }
         _ => "bad-op".into(),
     });
